@@ -56,6 +56,44 @@ def run(cmd, cwd=None, timeout=3600, env=None):
     return p.returncode, p.stdout
 
 
+def source_fingerprint():
+    """{relative path: sha256 of the position-free AST dump} for the Python sources of /repo (comments and layout do not count)."""
+    import ast
+    import hashlib
+    out = {}
+    for sub in ('src/rimu', 'src/rimuc'):
+        d = os.path.join(REPO, sub)
+        if not os.path.isdir(d):
+            continue
+        for name in sorted(os.listdir(d)):
+            if not name.endswith('.py'):
+                continue
+            path = os.path.join(d, name)
+            try:
+                with open(path, encoding='utf-8') as f:
+                    tree = ast.parse(f.read())
+                text = ast.dump(tree, annotate_fields=False, include_attributes=False)
+            except (SyntaxError, ValueError, OSError) as e:
+                text = 'unparsable: %r' % (e,)
+            out[sub + '/' + name] = hashlib.sha256(text.encode('utf-8', 'replace')).hexdigest()
+    return out
+
+
+FINGERPRINT = os.path.join(VERIF, 'tools', 'source_fingerprint.json')
+
+
+def source_changed():
+    """Files whose code differs from the tree the model was last validated against (committed fingerprint); a missing
+    fingerprint file means "unknown", treated as unchanged."""
+    try:
+        with open(FINGERPRINT) as f:
+            ref = json.load(f)
+    except (OSError, ValueError):
+        return []
+    cur = source_fingerprint()
+    return sorted(k for k in set(ref) | set(cur) if ref.get(k) != cur.get(k))
+
+
 class MachineryError(Exception):
     pass
 
@@ -237,6 +275,7 @@ def main():
         log('NOT-CHECKED:', f['what'], '::', f['detail'][:1500])
 
     ctx = props.Context(repo=REPO, seed=seed, tier=args.tier, model_ok=(info['model_build'] == 'ok'))
+    ctx.source_changed = source_changed()
     try:
         result = props.run_property(prop, ctx, broken=bool(info['failures']))
     except Exception:
@@ -302,6 +341,7 @@ def main():
             'trusted_base': props.TRUSTED_BASE + prop.trusted_base,
             'theorems': [{'name': n, 'axioms': info['axioms'].get(n)} for n in info['theorems']],
             'generated_from_source': {'translator': info['translate'], 'files_rewritten_this_run': info['generated_changed']},
+            'source_files_changed_since_last_validation': ctx.source_changed,
             'model_build': info['model_build'], 'proof_build': info['proof_build'], 'axiom_audit': info['audit'],
             'leanchecker': info.get('leanchecker', 'not-run (thorough tier only)'),
             'evaluations': result.evaluations,
